@@ -186,6 +186,36 @@ def run(ctx):
                               'generate_uuid(dashed=%s) -> %r is not uuid-like / not fresh' % (dashed, u))
     ctx.cov['evaluations'] += g
     ctx.stage('generate_uuid', draws=g)
+    # spec growth: fixture._UUIDSentinels (spec/Sentinels.tla: one value per name under the lock)
+    import threading
+    from oslo_utils import fixture as fx
+    for cfg, expect in (('MC_Sentinels.cfg', None), ('MC_Sentinels_nolock.cfg', 'Stable')):
+        r = tlc.run('Sentinels', cfg, workdir=ctx.work, workers=4, parse=False, allow_violation=bool(expect))
+        ctx.tlc(r, 'Sentinels %s' % cfg, counts_as_states=False)
+        if expect and r.violated != expect:
+            raise MachineryError('Sentinels without the lock should violate %s, TLC says %s' % (expect, r.violated))
+    for dashed in (True, False):
+        sn = fx._UUIDSentinels(is_dashed=dashed)
+        a, b, a2 = sn.foo, sn.bar, sn.foo
+        ok = a == a2 and a != b and uuidutils.is_uuid_like(a) and (('-' in a) == dashed)
+        try:
+            sn._private
+            ok = False
+        except AttributeError:
+            pass
+        results = []
+        barrier = threading.Barrier(16)
+
+        def worker():
+            barrier.wait()
+            results.append(sn.shared)
+        ths = [threading.Thread(target=worker) for _ in range(16)]
+        [t.start() for t in ths]
+        [t.join() for t in ths]
+        if not ok or len(set(results)) != 1:
+            ctx.violation({'kind': 'uuid-sentinels', 'dashed': dashed}, {'values': [a, b, a2], 'threads': sorted(set(results))},
+                          '_UUIDSentinels(is_dashed=%s): one value per name violated' % dashed)
+    ctx.stage('uuid-sentinels', ok=True)
     # binding self-test
     saved = strutils.TRUE_STRINGS
     try:
